@@ -2,6 +2,7 @@
 
 BINARIES = {
     "pebbledb": {"pkg": "./pkg/storage/pebbledb"},
+    "jsondb": {"pkg": "./pkg/storage/jsondb"},
 }
 
 STORE_STUB = {
@@ -12,6 +13,40 @@ STORE_STUB = {
 }
 
 CHECKS = {
+    "C18": {
+        "level": "exploration",
+        "budget": {"quick": 45, "thorough": 900},
+        "rule": ("storesim-migrate: one evaluation = one generated signature file (0-2500 entries, unicode, empty optional fields, nil/empty slices, "
+                 "repeated IDs, several JSON layouts) migrated into the embedded database on the simulated disk, exported and re-imported "
+                 "(field-for-field, last-wins), then EVERY truncation point of its encoding (all bytes for inputs <= 1500 bytes, windows around "
+                 "structural tokens and 1000-entry batch boundaries otherwise) and injected read errors. jsonsim: one evaluation = an add/get "
+                 "history on the JSON store, save/load round trip, then a second SaveDatabase expanded into every file-system operation "
+                 "boundary x crash modes (or one injected ENOSPC/EIO). Non-trivial = at least 2 entries (migrate) / crash enumeration or a fired fault (json); "
+                 "distinct = distinct input encodings / operation traces."),
+        "jobs": [
+            {"engine": "storesim-migrate", "bin": "pebbledb", "test": "TestVerifC18Migrate", "cfg": {}, "weight": 3},
+            {"engine": "jsonsim", "bin": "jsondb", "test": "TestVerifC18JSON", "cfg": {}, "weight": 1},
+        ],
+        "assumptions": ["the old JSON file is durable (its directory synced) before the save that is crashed",
+                        "durability of the rename itself is not demanded (C18 speaks of atomic replacement)",
+                        "generated_at / timestamps masked; nil and empty slices are identified (JSON/gob cannot tell them apart)"],
+        "real_vs_stub": STORE_STUB,
+    },
+    "C07": {
+        "level": "fault_enumeration",
+        "budget": {"quick": 60, "thorough": 1200},
+        "rule": ("one evaluation = one simulated history of 1-10 store mutations on the simulated disk, expanded into ALL of its file-system "
+                 "operation boundaries (every write, sync, create, rename, remove, link issued by the store or by Pebble on its behalf, "
+                 "including those of open and close) x crash modes {process, machine-strict, machine-torn x k seeds}; each image is reopened "
+                 "and compared with the admissible reference models (acknowledged mutations present; the one in-flight mutation applied "
+                 "fully or not at all; indexes consistent; interrupted rebuild loses no record and is repaired by a second rebuild; recovered "
+                 "store accepts further mutations; sampled nested crashes during recovery). Non-trivial = at least one image with a mutation "
+                 "in flight; distinct = distinct operation histories."),
+        "jobs": [{"engine": "storesim-crash", "bin": "pebbledb", "test": "TestVerifC07", "cfg": {}}],
+        "assumptions": ["A1: the database directory exists and is durable before the workload starts",
+                        "machine-strict = Pebble vfs.NewStrictMem semantics; machine-torn additionally keeps a prefix of each file's unsynced writes and of each directory's unsynced entry operations"],
+        "real_vs_stub": STORE_STUB,
+    },
     "C06": {
         "level": "exploration",
         "budget": {"quick": 40, "thorough": 900},
@@ -43,15 +78,31 @@ NOT_APPLICABLE = {
     "C20": "path-refusal is a pure function of a path spelling and a static symlink layout; " + PURE,
     # claimed in DESIGN.md, harness not finished yet (moved to checks as each lands):
     "C01": "PENDING: fpsim harness (pooled canonicaliser + map-order + concurrent callers) not yet built in this revision",
-    "C07": "PENDING: crash-image configuration of storesim not yet built in this revision",
     "C10": "PENDING: clisim harness not yet built in this revision",
     "C11": "PENDING: concurrent configuration of storesim not yet built in this revision",
     "C13": "PENDING: llmsim harness not yet built in this revision",
     "C16": "PENDING: clisim fault-injection harness not yet built in this revision",
-    "C18": "PENDING: json/migrate configuration of storesim not yet built in this revision",
 }
 
 MANIFEST_TEXT = {
+    "C18": {
+        "engine": "storesim",
+        "technique": "deterministic simulation with fault injection on a simulated disk: seeded inputs/histories, exhaustive truncation points and SaveDatabase crash points per sampled input, injected I/O errors, comparison with a reference model",
+        "design_ref": "DESIGN.md §3 C18",
+        "level_text": ("Seeded search over signature files and add/get histories on both backends with the file system simulated (os -> simos swap): "
+                       "round trips compared field for field with a last-wins reference; every truncation point and read-error offset must yield an error "
+                       "or the complete set; every crash point inside SaveDatabase must leave the old or the new file. Inputs sampled; truncation and crash points exhaustive per input."),
+        "level_note": "Trusts: SimDisk/simos fidelity, the reference model, JSON nil/empty-slice equivalence.",
+    },
+    "C07": {
+        "engine": "storesim",
+        "technique": "deterministic simulation with crash injection: exhaustive enumeration of crash points (every FS op boundary x crash modes) of seeded histories on a simulated disk, refinement against a reference model",
+        "design_ref": "DESIGN.md §3 C07",
+        "level_text": ("Fault enumeration: for each sampled history every file-system operation boundary is a crash point and is expanded into "
+                       "process / machine-strict / machine-torn images which are reopened with the real store and real Pebble recovery and "
+                       "compared with the admissible states of the reference model. Histories are sampled (seeded search); crash points per history are exhaustive."),
+        "level_note": "Trusts: SimDisk crash semantics (strict = Pebble's StrictMem; torn = ordered prefixes), assumption A1, the reference model; Pebble's own recovery is exercised, not assumed.",
+    },
     "C06": {
         "engine": "storesim",
         "technique": "deterministic simulation: seeded operation histories on a simulated disk, op-by-op refinement check against a map reference model",
